@@ -36,6 +36,9 @@ type Prover struct {
 	Queries int
 
 	roMemo map[*ssa.Function]int // read-only functions: 1 in progress, 2 yes, 3 no
+
+	lemmas    map[*ssa.Function][]lemmaT
+	lemmaBusy map[*ssa.Function]bool
 }
 
 func (c *Ctx) NewProver() *Prover {
@@ -239,7 +242,7 @@ func constLin(k int64) Lin { l := newLin(); l.K = k; return l }
 // ---------- definitions ----------
 
 func (fc *factCtx) defineInt(t intTerm) {
-	if fc.isDone(t) || fc.depth > 12 {
+	if fc.isDone(t) || fc.depth > 18 {
 		return
 	}
 	fc.done[t] = true
@@ -386,7 +389,7 @@ func (fc *factCtx) defineIntCall(self Lin, call *ssa.Call) {
 		// content axiom: s[0] == c on a dominating edge and the separator does not start with c => Index(s, sep) != 0
 		if name == "strings.Index" || name == "strings.IndexByte" {
 			if sep, ok := constString(cc.Args[1]); ok && sep != "" {
-				if ch, ok := firstByteKnown(call, cc.Args[0]); ok && sep[0] != ch {
+				if fc.p.firstByteNot(call, cc.Args[0], sep[0], 0) {
 					fc.or(Clause{Conj{leExpr(self, constLin(-1))}, Conj{leExpr(constLin(1), self)}})
 				}
 			}
@@ -395,8 +398,150 @@ func (fc *factCtx) defineIntCall(self Lin, call *ssa.Call) {
 	}
 	callee := cc.StaticCallee()
 	if callee != nil && fc.p.c.InModuleFn(callee) && !cc.IsInvoke() {
+		// lemmas about the result proved once in the callee's own frame (compositional; keeps nested helpers cheap)
+		for _, lm := range fc.p.resultLemmas(callee) {
+			rhs := constLin(lm.C)
+			if lm.Param >= 0 && lm.Param < len(cc.Args) {
+				if lm.IsLen {
+					rhs = fc.lexpr(cc.Args[lm.Param]).plus(constLin(lm.C), 1)
+				} else {
+					rhs = fc.iexpr(cc.Args[lm.Param]).plus(constLin(lm.C), 1)
+				}
+			}
+			if lm.Upper {
+				fc.le(leExpr(self, rhs))
+			} else {
+				fc.le(leExpr(rhs, self))
+			}
+		}
 		fc.summarise(callee, call, 0, self, false)
 	}
+}
+
+// lemmaT: result <= bound (Upper) or result >= bound, where bound is C, or
+// len(param)+C (IsLen), or param+C.
+type lemmaT struct {
+	Upper bool
+	Param int // -1: constant bound
+	IsLen bool
+	C     int64
+}
+
+// resultLemmas proves, once per int-returning module function, which of a
+// small set of bound templates hold at every return (in the function's own
+// frame, for all arguments), and returns those that do.
+func (p *Prover) resultLemmas(fn *ssa.Function) []lemmaT {
+	if p.lemmas == nil {
+		p.lemmas = map[*ssa.Function][]lemmaT{}
+		p.lemmaBusy = map[*ssa.Function]bool{}
+	}
+	if l, ok := p.lemmas[fn]; ok {
+		return l
+	}
+	if p.lemmaBusy[fn] || len(fn.Blocks) == 0 {
+		return nil
+	}
+	res := fn.Signature.Results()
+	if res.Len() != 1 || !isIntType(res.At(0).Type()) {
+		p.lemmas[fn] = nil
+		return nil
+	}
+	p.lemmaBusy[fn] = true
+	defer delete(p.lemmaBusy, fn)
+	var cands []lemmaT
+	for _, k := range []int64{-1, 0, 1} {
+		cands = append(cands, lemmaT{Upper: false, Param: -1, C: k})
+	}
+	for i, pr := range fn.Params {
+		switch {
+		case hasLen(pr.Type()):
+			for _, k := range []int64{0, -1} {
+				cands = append(cands, lemmaT{Upper: true, Param: i, IsLen: true, C: k})
+			}
+		case isIntType(pr.Type()):
+			for _, k := range []int64{0, -1, -2, -3} {
+				cands = append(cands, lemmaT{Upper: true, Param: i, C: k})
+			}
+		}
+	}
+	var rets []*ssa.Return
+	funcInstrs(fn, func(in ssa.Instruction) {
+		if rt, ok := in.(*ssa.Return); ok && len(rt.Results) == 1 {
+			rets = append(rets, rt)
+		}
+	})
+	var out []lemmaT
+	for _, lm := range cands {
+		lm := lm
+		ok := len(rets) > 0
+		for _, rt := range rets {
+			rv := retVal(rt, 0)
+			good, _ := p.ProveAt(rt, func(fc *factCtx) []Lin {
+				self := fc.iexpr(rv)
+				rhs := constLin(lm.C)
+				if lm.Param >= 0 {
+					if lm.IsLen {
+						rhs = fc.lexpr(fn.Params[lm.Param]).plus(constLin(lm.C), 1)
+					} else {
+						rhs = fc.iexpr(fn.Params[lm.Param]).plus(constLin(lm.C), 1)
+					}
+				}
+				if lm.Upper {
+					return []Lin{leExpr(self, rhs)}
+				}
+				return []Lin{leExpr(rhs, self)}
+			})
+			if !good {
+				ok = false
+				break
+			}
+		}
+		if ok {
+			out = append(out, lm)
+		}
+	}
+	p.lemmas[fn] = out
+	if os.Getenv("GOIRCSA_LEMMAS") != "" {
+		fmt.Fprintf(os.Stderr, "lemmas %s: %+v\n", p.c.FuncKey(fn), out)
+	}
+	return out
+}
+
+// firstByteNot: it is known at `at` that s is non-empty and s[0] != x: a
+// dominating branch edge fixes s[0] to another byte, or s is a parameter of an
+// unexported function whose every call site passes an argument for which the
+// same holds there.
+func (p *Prover) firstByteNot(at ssa.Instruction, s ssa.Value, x byte, depth int) bool {
+	if ch, ok := firstByteKnown(at, s); ok {
+		return ch != x
+	}
+	pr, ok := s.(*ssa.Parameter)
+	if !ok || depth > 2 {
+		return false
+	}
+	fn := pr.Parent()
+	if fn.Object() == nil || fn.Object().Exported() || addrTaken(fn) {
+		return false
+	}
+	idx := -1
+	for i, q := range fn.Params {
+		if q == pr {
+			idx = i
+		}
+	}
+	sites := p.c.staticCallers(fn)
+	if idx < 0 || len(sites) == 0 {
+		return false
+	}
+	for _, cs := range sites {
+		if _, isCall := cs.(*ssa.Call); !isCall || idx >= len(cs.Common().Args) {
+			return false
+		}
+		if !p.firstByteNot(cs, cs.Common().Args[idx], x, depth+1) {
+			return false
+		}
+	}
+	return true
 }
 
 // firstByteKnown: a branch edge dominating `at` fixes s[0] == c.
@@ -438,7 +583,7 @@ func firstByteKnown(at ssa.Instruction, s ssa.Value) (byte, bool) {
 }
 
 func (fc *factCtx) defineLen(t lenTerm) {
-	if fc.isDone(t) || fc.depth > 12 {
+	if fc.isDone(t) || fc.depth > 18 {
 		return
 	}
 	fc.done[t] = true
@@ -553,7 +698,7 @@ func (fc *factCtx) defineExtract(ex *ssa.Extract, self Lin, isLen bool) {
 
 // summarise adds: OR over return sites j of callee: result == ret_j /\ facts at ret_j.
 func (fc *factCtx) summarise(callee *ssa.Function, call *ssa.Call, idx int, self Lin, isLen bool) {
-	if fc.openFns[callee] || fc.depth > 6 {
+	if fc.openFns[callee] || fc.depth > 10 {
 		return
 	}
 	fc.openFns[callee] = true
@@ -774,6 +919,15 @@ func (c *Ctx) constTableLens(v *ssa.UnOp) (int64, int64, bool) {
 		al = b
 	}
 	if al == nil {
+		// a package-level table: a global slice assigned once, in the package initialiser, from an array literal,
+		// whose elements no function of the module ever stores to
+		if ld, isLd := ia.X.(*ssa.UnOp); isLd && ld.Op == token.MUL {
+			if g, isG := ld.X.(*ssa.Global); isG {
+				al = c.globalTableArray(g)
+			}
+		}
+	}
+	if al == nil {
 		return 0, 0, false
 	}
 	if _, ok := arrayLen(al.Type()); !ok {
@@ -821,6 +975,71 @@ func (c *Ctx) constTableLens(v *ssa.UnOp) (int64, int64, bool) {
 		lo = 0 // unset elements are ""
 	}
 	return lo, hi, true
+}
+
+// globalTableArray: g is a package-level slice variable of the module that is
+// stored exactly once (in its package initialiser, a slice of an array
+// allocated there), never has its address taken otherwise, and whose elements
+// are never stored to through a load of g anywhere in the module. Returns the
+// backing array allocation.
+func (c *Ctx) globalTableArray(g *ssa.Global) *ssa.Alloc {
+	if g.Pkg == nil || (g.Pkg != c.Client && g.Pkg != c.State) {
+		return nil
+	}
+	var al *ssa.Alloc
+	nStore, bad := 0, false
+	scan := func(fn *ssa.Function) {
+		funcInstrs(fn, func(in ssa.Instruction) {
+			for _, op := range in.Operands(nil) {
+				if op == nil || *op != ssa.Value(g) {
+					continue
+				}
+				switch t := in.(type) {
+				case *ssa.Store:
+					if t.Addr == ssa.Value(g) && fn.Name() == "init" && fn.Package() == g.Pkg {
+						nStore++
+						if sl, ok := t.Val.(*ssa.Slice); ok {
+							al, _ = sl.X.(*ssa.Alloc)
+						}
+					} else {
+						bad = true
+					}
+				case *ssa.UnOp:
+					if t.Op != token.MUL {
+						bad = true
+						break
+					}
+					// the loaded slice: only indexed for reading, ranged over, measured
+					for _, ref := range *t.Referrers() {
+						switch r := ref.(type) {
+						case *ssa.IndexAddr:
+							for _, r2 := range *r.Referrers() {
+								if st, isSt := r2.(*ssa.Store); isSt && st.Addr == ssa.Value(r) {
+									bad = true
+								}
+							}
+						case *ssa.DebugRef, *ssa.Range:
+						case *ssa.Call:
+							if b, isB := r.Call.Value.(*ssa.Builtin); !isB || (b.Name() != "len" && b.Name() != "cap") {
+								bad = true
+							}
+						default:
+							bad = true
+						}
+					}
+				default:
+					bad = true
+				}
+			}
+		})
+	}
+	for _, fn := range c.ModFuncs {
+		scan(fn)
+	}
+	if bad || nStore != 1 || al == nil {
+		return nil
+	}
+	return al
 }
 
 // ---------- conditions ----------
